@@ -53,13 +53,17 @@ pub enum Kind {
     InMem,
     /// `delay(N, x, d)` written inline in dsp
     InDly,
+    /// a function of its own with a `self` cell AND a delay line (`self * 0.5 + delay(N, x, D)`);
+    /// an inner edit resizes the delay line, leaving the `self` cell untouched next to it
+    FeedDly,
 }
 
 /// Kinds used for generation. `Kind::Gate` (stateful calls in both arms of an `if`) is NOT in this
 /// list: on the pinned tree the VM underflows its state position on such programs (panic with
 /// overflow checks, heap corruption / abort without) even in a fault-free run. That is a crash of
 /// an accepted program (C03/C05 territory, not claimed here) and would only kill workers.
-pub const ALL_KINDS: [Kind; 27] = [
+pub const ALL_KINDS: [Kind; 28] = [
+    Kind::FeedDly,
     Kind::InMem,
     Kind::InDly,
     Kind::Counter,
@@ -181,6 +185,7 @@ impl Voice {
             Kind::ArgCall => "argcall".into(),
             Kind::InMem => "mem".into(),
             Kind::InDly => "delay".into(),
+            Kind::FeedDly => format!("feeddly{}", self.id),
         };
         base
     }
@@ -199,7 +204,7 @@ impl Voice {
         let x = self.input.render();
         match self.kind {
             Kind::Counter | Kind::SrPhase | Kind::ArrPhase | Kind::GlobK | Kind::MainCl => vec![lit(self.p[0])],
-            Kind::Duo | Kind::DlySrc => vec![],
+            Kind::Duo | Kind::DlySrc | Kind::FeedDly => vec![],
             Kind::Leaky => vec![x, lit(self.p[0])],
             Kind::Lag2 | Kind::Mfb | Kind::Mmf | Kind::InMem => vec![x],
             Kind::Echo => vec![x, lit(self.p[0])],
@@ -366,6 +371,15 @@ impl Voice {
                     ),
                 ),
             ],
+            Kind::FeedDly => vec![(
+                self.fn_name(),
+                format!(
+                    "fn {}(){{\n  let m = delay({n}, now * {}, {})\n  self * 0.5 + m\n}}",
+                    self.fn_name(),
+                    lit(self.p[0]),
+                    lit(self.p[1])
+                ),
+            )],
             Kind::ArrPhase => vec![
                 phasor,
                 ("tblarr".into(), "let tblarr = [1.0, 2.5, 4.0, 8.0, 16.0]".into()),
@@ -447,10 +461,10 @@ impl Model {
             Kind::ArgCall => 4,
             Kind::Gate | Kind::Wide | Kind::Deep | Kind::Mmf | Kind::LateMem | Kind::RecCalls => 3,
             Kind::Echo | Kind::Duo | Kind::InDly => 0,
-            Kind::EchoMod | Kind::Comb | Kind::DlySrc => 1,
+            Kind::EchoMod | Kind::Comb | Kind::DlySrc | Kind::FeedDly => 1,
         };
         let ring = match v.kind {
-            Kind::Echo | Kind::EchoMod | Kind::Comb | Kind::DlySrc | Kind::InDly => vec![0.0; v.n as usize],
+            Kind::Echo | Kind::EchoMod | Kind::Comb | Kind::DlySrc | Kind::InDly | Kind::FeedDly => vec![0.0; v.n as usize],
             _ => vec![],
         };
         Model {
@@ -506,6 +520,11 @@ impl Model {
             Kind::DlySrc => {
                 let ph = Self::phasor(&mut self.s[0], p[0]);
                 self.ring_process(ph, p[1])
+            }
+            Kind::FeedDly => {
+                let m = self.ring_process(t as f64 * p[0], p[1]);
+                self.s[0] = self.s[0] * 0.5 + m;
+                self.s[0]
             }
             Kind::ArrPhase => {
                 let i = Self::phasor(&mut self.s[0], p[0]) as usize;
@@ -679,6 +698,10 @@ pub fn gen_voice(rng: &mut Rng, id: u32, kind: Kind, n_in: u32, max_delay: u32) 
             p[0] = rng.range(2, 9) as f64;
             p[1] = rng.range(1, (n - 1).max(1) as u64) as f64;
         }
+        Kind::FeedDly => {
+            p[0] = small(rng);
+            p[1] = rng.range(1, (n - 1).max(1) as u64) as f64;
+        }
         Kind::Duo => {}
         Kind::GlobK | Kind::MainCl => p[0] = small(rng),
         // one in six leaky integrators has a gain that drives the cell to +/-inf within six
@@ -755,7 +778,7 @@ pub fn tweak_constant(rng: &mut Rng, v: &mut Voice) -> bool {
             true
         }
         Kind::ArrPhase => false,
-        Kind::DlySrc => {
+        Kind::DlySrc | Kind::FeedDly => {
             let n = v.n as u64;
             if n <= 2 {
                 return false;
